@@ -694,25 +694,25 @@ End Invariant.
 (* ------------------------------------------------------------------------------------------ *)
 (* the property theorems *)
 
-Theorem download_invariant_proof : forall (cfg : config) (ch : chain) (from0 B : N) (ticks : list tick),
-  1 <= c_chunk cfg ->
+Theorem download_invariant_proof : forall (cfg : config) (ch : chain) (from0 B : N) (calls : list cres) (ticks : list tick),
+  1 <= c_chunk cfg -> calls_ok calls ->
   B + 1 + (N.of_nat (length ticks) + 1) * c_chunk cfg < M64 ->
   tips_ok B from0 ticks ->
-  let s := fst (dl_run cfg ch (dl_init from0) ticks) in
-  let out := snd (dl_run cfg ch (dl_init from0) ticks) in
+  let s := fst (dl_run cfg ch (dl_init from0 calls) ticks) in
+  let out := snd (dl_run cfg ch (dl_init from0 calls) ticks) in
   StronglySorted N.lt (map b_num out) /\
   (forall b, In b out -> b_events b = watched_events cfg ch (b_num b) /\ from0 <= b_num b < s_from s) /\
   (forall k, from0 <= k < s_from s -> watched_events cfg ch k <> [] ->
              In (k, watched_events cfg ch k) (map blk out)) /\
   from0 <= s_from s /\ (s_phase s <> PInit -> s_from s <= s_last s + 1 /\ s_last s <= B).
 Proof.
-  intros cfg ch from0 B ticks Hchunk Hlim Hok s out.
+  intros cfg ch from0 B calls ticks Hchunk Hcalls Hlim Hok s out.
   set (LIM := B + 1 + (N.of_nat (length ticks) + 1) * c_chunk cfg) in *.
   assert (HF : Forall (tick_ok from0 B) ticks).
   { rewrite Forall_forall. intros t Ht Herr. apply Hok; assumption. }
-  pose proof (run_preserves cfg ch Hchunk from0 B LIM Hlim ticks (dl_init from0) []) as H.
+  pose proof (run_preserves cfg ch Hchunk from0 B LIM Hlim ticks (dl_init from0 calls) []) as H.
   cbn [app] in H. apply (Inv_facts cfg ch Hchunk from0 B LIM Hlim 0). apply H.
-  - unfold Inv. cbn [dl_init s_phase]. split; reflexivity.
+  - unfold Inv. cbn [dl_init s_phase s_calls s_from]. split; [exact Hcalls|split; reflexivity].
   - exact HF.
   - unfold LIM. lia.
 Qed.
@@ -734,11 +734,11 @@ Proof.
 Qed.
 
 Theorem marker_never_passes_unstored_proof :
-  forall (cfg : config) (ch : chain) (lp0 B : N) (ticks : list tick),
-  1 <= c_chunk cfg ->
+  forall (cfg : config) (ch : chain) (lp0 B : N) (calls : list cres) (ticks : list tick),
+  1 <= c_chunk cfg -> calls_ok calls ->
   B + 1 + (N.of_nat (length ticks) + 1) * c_chunk cfg < M64 ->
   tips_ok B (sync_from lp0) ticks ->
-  let out := snd (dl_run cfg ch (dl_init (sync_from lp0)) ticks) in
+  let out := snd (dl_run cfg ch (dl_init (sync_from lp0) calls) ticks) in
   forall handled pending, out = handled ++ pending ->
   let d := drv_run (drv_init lp0) handled in
   d_stored d = map blk handled /\
@@ -747,10 +747,10 @@ Theorem marker_never_passes_unstored_proof :
   (forall k, lp0 < k <= d_last d -> watched_events cfg ch k <> [] ->
              In (k, watched_events cfg ch k) (d_stored d)).
 Proof.
-  intros cfg ch lp0 B ticks Hchunk Hlim Hok out handled pending Hsplit d.
-  pose proof (download_invariant_proof cfg ch (sync_from lp0) B ticks Hchunk Hlim Hok) as H.
+  intros cfg ch lp0 B calls ticks Hchunk Hcalls Hlim Hok out handled pending Hsplit d.
+  pose proof (download_invariant_proof cfg ch (sync_from lp0) B calls ticks Hchunk Hcalls Hlim Hok) as H.
   cbn zeta in H. fold out in H. destruct H as (Hsorted & Hgen & Hcomp & Hf0 & _).
-  set (s := fst (dl_run cfg ch (dl_init (sync_from lp0)) ticks)) in *.
+  set (s := fst (dl_run cfg ch (dl_init (sync_from lp0) calls) ticks)) in *.
   rewrite Hsplit in Hsorted, Hgen, Hcomp.
   rewrite map_app in Hsorted. apply sorted_app_inv in Hsorted as (Hs1 & Hs2 & Hcross).
   assert (Hst : d_stored d = map blk handled).
@@ -793,24 +793,24 @@ Proof.
     destruct (dl_run cfg ch s2 b) as [s3 o3]. cbn [fst snd]. rewrite app_assoc. reflexivity.
 Qed.
 
-Theorem download_progress_proof : forall (cfg : config) (ch : chain) (from0 B : N) (pre post : list tick) (k : N),
-  1 <= c_chunk cfg ->
+Theorem download_progress_proof : forall (cfg : config) (ch : chain) (from0 B : N) (calls : list cres) (pre post : list tick) (k : N),
+  1 <= c_chunk cfg -> calls_ok calls ->
   B + 1 + (N.of_nat (length (pre ++ post)) + 1) * c_chunk cfg < M64 ->
   tips_ok B from0 (pre ++ post) ->
-  let s := fst (dl_run cfg ch (dl_init from0) pre) in
+  let s := fst (dl_run cfg ch (dl_init from0 calls) pre) in
   rising k (s_last s) post ->
   2 * (k + 1 - s_from s) + 3 <= N.of_nat (length post) ->
-  k < s_from (fst (dl_run cfg ch (dl_init from0) (pre ++ post))).
+  k < s_from (fst (dl_run cfg ch (dl_init from0 calls) (pre ++ post))).
 Proof.
-  intros cfg ch from0 B pre post k Hchunk Hlim Hok s Hr Hlen.
+  intros cfg ch from0 B calls pre post k Hchunk Hcalls Hlim Hok s Hr Hlen.
   set (LIM := B + 1 + (N.of_nat (length (pre ++ post)) + 1) * c_chunk cfg) in *.
   assert (HF : Forall (tick_ok from0 B) (pre ++ post)).
   { rewrite Forall_forall. intros t Ht Herr. apply Hok; assumption. }
   apply Forall_app in HF as [HF1 HF2].
   assert (Hbud : B + 1 + (N.of_nat (length pre + length post) + 1) * c_chunk cfg <= LIM).
   { unfold LIM. rewrite app_length. lia. }
-  pose proof (run_preserves_gen cfg ch Hchunk from0 B LIM Hlim pre (length post) (dl_init from0) []) as H.
-  cbn [app] in H. specialize (H ltac:(unfold Inv; cbn [dl_init s_phase]; split; reflexivity) HF1 Hbud).
+  pose proof (run_preserves_gen cfg ch Hchunk from0 B LIM Hlim pre (length post) (dl_init from0 calls) []) as H.
+  cbn [app] in H. specialize (H ltac:(unfold Inv; cbn [dl_init s_phase s_calls s_from]; split; [exact Hcalls|split; reflexivity]) HF1 Hbud).
   fold s in H.
   rewrite dl_run_app. cbn [fst]. fold s.
   apply (run_progress cfg ch Hchunk from0 B LIM Hlim k post s _ H HF2).
